@@ -244,7 +244,7 @@ def gen_merge_modelled(r, cid):
     ops += ['t', 'bt', 's', 'bs']
     return line(cid, ops)
 
-BIG255_QUICK = (26, 42, 47)     # quick tier: a continuous 255, an even-capacity 254 and an indexed copy-only 255 configuration split a FULL internal node
+BIG255_QUICK = (47,)     # quick tier: a continuous 255, an even-capacity 254 and an indexed copy-only 255 configuration split a FULL internal node
 def gen_big_history(r, cid, thorough, first=False):
     """trees big enough to split INTERNAL nodes (and to fill a 255-entry node / index table to the last slot), to cross the
     height thresholds more than once, then range removals across several levels, re-growth and a full drain"""
@@ -382,7 +382,7 @@ def gen_cases(ctx, scale, modelled_only):
         for _ in range(n):
             nops = r.choice([20, 40, 80, 160]) if mc <= 8 else r.choice([60, 120])
             cases.append(gen_history(r, cid, nops, modelled_only))
-        for j in range(2 if mc <= 64 else 1):
+        for j in range((2 if thorough else 1) if mc <= 64 else 1):     # quick: one big tree per configuration (cold-start budget)
             cases.append(gen_big_history(r, cid, thorough and modelled_only, first=(j == 0 and modelled_only)))
         if merge_modelled(cid) or not modelled_only:
             for _ in range((4 if mc <= 8 else 2) * scale):
@@ -522,7 +522,7 @@ def build_harness(ctx):
         ctx.stage('build-harness', True)
         return exes
     if os.path.exists(spath): os.remove(spath)
-    res = ctx.cxx_many([('harness.cpp', 'harness%d' % k, ['-DCFGSET=%d' % k] + (['-g0'] if ctx.quick() else [])) for k in TUS], timeout=3000)
+    res = ctx.cxx_many([('harness.cpp', 'harness%d' % k, ['-DCFGSET=%d' % k] + (['-O0', '-g0'] if ctx.quick() else [])) for k in TUS], timeout=3000)
     harn = {k: res.get('harness%d' % k) for k in TUS}
     if any(v is None for v in harn.values()):
         ctx.stage('build-harness', False, getattr(ctx, 'last_cxx_error', ''))
@@ -555,7 +555,7 @@ def replay(ctx, rp):
 
 def run(ctx):
     scale = 1 if ctx.quick() else 8
-    ctx.trusted += ['tools/cxx2coq.py + clang 14 JSON AST for GetSplitItemIndex / GetCapacity / pvGetLeafMemPoolIndex / Node::AcceptBackItem, Remove, pvAcceptBackItem, pvRemove, pvInitIndexes, GetCount of both layouts incl. the std::copy / std::copy_backward range copies on the index table and the child array (translated as a parallel range copy; the standard no-overlap preconditions of the two algorithms are assumed) / the decision prefix of TreeSet::pvRebalance / the AddSegment trace of Relocator::pvSplitNode / pvIsOrdered(iter, iter) / pvFindFirst(Node*, pred) both strategies / the CreateNode counts of pvSplitNode; props/C02/astfacts.py (own walker over the same clang JSON AST) for the pvMergeFast if-chain of MergeTo, pvIsOrdered(set, set) the statements of the root-collapse loop and the stop rule of the climbing loop of pvRebalance; props/C02/c02_proto.py (generic statement-tree dumper copied from props/C07/proto2coq.py) for the descent of pvFindFirst(itemPred) and the iterator steps, with coq/ProtoSemC02.v as their (trusted-by-inspection) semantics: Node* = path into the hand tree, MOMO_CHECK / MOMO_ASSERT statements dropped; ASSUMED primitive: ItemTraits::ShiftNothrow(begin, shift) on the continuous item array rotates [begin, begin+shift] by one (its proof is C03); skipped: item creator / remover functors; validated through the shape and the node-level byte correspondence',
+    ctx.trusted += ['tools/cxx2coq.py + clang 14 JSON AST for GetSplitItemIndex / GetCapacity / pvGetLeafMemPoolIndex / Node::AcceptBackItem, Remove, pvAcceptBackItem, pvRemove, pvInitIndexes, GetCount of both layouts incl. the std::copy / std::copy_backward range copies on the index table and the child array (translated as a parallel range copy; the standard no-overlap preconditions of the two algorithms are assumed) / the decision prefix of TreeSet::pvRebalance / the AddSegment trace of Relocator::pvSplitNode / pvIsOrdered(iter, iter) / pvFindFirst(Node*, pred) both strategies / the CreateNode counts of pvSplitNode; props/C02/astfacts.py (own walker over the same clang JSON AST) for the pvMergeFast if-chain of MergeTo, pvIsOrdered(set, set) the statements of the root-collapse loop and the stop rule of the climbing loop of pvRebalance; props/C02/c02_proto.py (generic statement-tree dumper copied from props/C07/proto2coq.py) for the descent of pvFindFirst(itemPred) and the iterator steps, with coq/ProtoSemC02.v as their (trusted-by-inspection) semantics: Node* = path into the hand tree, MOMO_CHECK / MOMO_ASSERT kept as Stuck obligations (default check mode assumed); ASSUMED primitive: ItemTraits::ShiftNothrow(begin, shift) on the continuous item array rotates [begin, begin+shift] by one (its proof is C03); skipped: item creator / remover functors; validated through the shape and the node-level byte correspondence',
                     'extraction: ExtrOcamlBasic only (no Extract Constant; Extraction Blacklist for module names), OCaml 4.13.1, zarith for decimal I/O only',
                     'g++ 12 -std=c++17, harness reaches private members via #define private public',
                     'the hand-written model coq/BTreeModel.v is tied to TreeSet.h by differential execution only (T-cor), on the listed configurations']
